@@ -195,6 +195,11 @@ class WorkStealingScheduling:
 
     def check_schedule(self) -> None:
         """Reschedule tests/perform load balancing."""
+        if self.collection is None:
+            # Initial distribution has not happened yet: nothing to balance,
+            # and idle nodes must not be shut down before they got any tests.
+            return
+
         nodes_up = [
             NodePending(node, pending)
             for node, pending in self.node2pending.items()
